@@ -350,6 +350,24 @@ func (r *TypeSettingsRegistry) GetByValue(objValue reflect.Value, optTS ...TypeS
 		// resolve indirections
 		switch objValue.Kind() {
 		case reflect.Ptr, reflect.Interface:
+			if objValue.IsNil() {
+				// a nil pointer or interface (e.g. the zero destination value of a map entry
+				// during decoding) can't be dereferenced: resolve a pointer by its element type.
+				if objValue.Kind() == reflect.Ptr {
+					if ts, ok := r.registry.Get(objValue.Type().Elem()); ok {
+						if len(optTS) > 0 {
+							return optTS[0].merge(ts)
+						}
+
+						return ts
+					}
+				}
+				if len(optTS) > 0 {
+					return optTS[0]
+				}
+
+				return TypeSettings{}
+			}
 			objValue = objValue.Elem()
 
 		default:
